@@ -204,6 +204,8 @@ def run_kinds(acc, i, n, tier):
                             bad('start-response-calls', 'start_response called %d times' % r['sr_calls'])
                         elif method == 'HEAD' and r['body']:
                             bad('head-body', 'HEAD response carries %d body bytes' % len(r['body']))
+                        if k % 211 == i:
+                            acc.sample(dict(case, status=r['status'], body_bytes=len(r['body'] or b'')))
                         leaked = tracker.leaked()
                         if leaked:
                             bad('file-left-open', 'files still open after close(): %r' % leaked)
@@ -291,6 +293,8 @@ def run_wrappers(acc, i, n, tier):
                     acc.add('nontrivial')
                     want = expected_wrapper_order(outer, inner, embedded)
                     got = list(LOG)
+                    if k % 301 == i:
+                        acc.sample(dict(case, wrappers_ran=got))
                     acc.outcome('wrappers|%s|%s|%d' % (style, 'embedded' if embedded else 'flat', len(want)))
                     if res.code != 200 or res.body != b'x':
                         acc.violation('C13:wrappers-response', 'wrapped application answered %s %r' % (res.status, res.body), case)
